@@ -289,6 +289,12 @@ STAGE_CASES = [
      [("CS0002", 2)]),
     ("duplicate-function-parameters", "pragma circom 2.0.0;\nfunction f(a, a) { return a; }\ntemplate T(b) { signal input in; signal output out; out <== in + f(b, b); }\ncomponent main = T(1);\n",
      [("CS0002", 2)]),
+    ("shadowing-in-recursive-template", "pragma circom 2.0.0;\ntemplate Rec(n) {\n  signal input a; signal output b;\n  var half = n \\ 2;\n  if (n > 1) {\n    var half = 1;\n    component r = Rec(half);\n    r.a <== a;\n    b <== r.b;\n  } else {\n    b <== a;\n  }\n}\ncomponent main = Rec(4);\n",
+     [("CS0001", 6)]),
+    ("shadowing-in-mutually-recursive-templates", "pragma circom 2.0.0;\ntemplate Even(n) {\n  signal input a; signal output b;\n  var k = n;\n  if (n > 0) {\n    var k = n - 1;\n    component o = Odd(k);\n    o.a <== a;\n    b <== o.b;\n  } else {\n    b <== a;\n  }\n}\ntemplate Odd(n) {\n  signal input a; signal output b;\n  component e = Even(n - 1);\n  e.a <== a;\n  b <== e.b;\n}\ncomponent main = Even(4);\n",
+     [("CS0001", 6)]),
+    ("shadowing-in-recursive-function", "pragma circom 2.0.0;\nfunction fact(n) {\n  var r = 1;\n  if (n > 1) {\n    var r = n;\n    return r * fact(n - 1);\n  }\n  return r;\n}\ntemplate T(n) { signal input in; signal output out; out <== in * fact(n); }\ncomponent main = T(3);\n",
+     [("CS0001", 5)]),
     ("no-stage-findings", "pragma circom 2.0.0;\ntemplate T() { signal input in; signal output out; out <== in; }\ncomponent main = T();\n", []),
 ]
 
@@ -1228,11 +1234,51 @@ def suite_positions(exe, tier, seed):
             if what and len(viol) < 20:
                 viol.append({"unit": "e2e", "fn": "parse_file / report locations", "obligation": f"e2e|positions|parse-error:{ename}", "props": ["C04"],
                              "input": {"case": ename, "source": text}, "what": f"parse-error/{ename}: {what}", "replay": "python3 run/e2e.py positions quick 0"})
+        # ---- every label (primary and related) of every finding of a two-file project lies inside the file it names
+        lib = ("pragma circom 2.0.0;\n// a library file that is longer than the file that includes it\n" + "// padding line\n" * 12 +
+               "template DivRem(n) {\n  signal input x;\n  signal output quotient;\n  signal output remainder;\n  remainder <-- x % n;\n  quotient <-- x \\ n;\n  x === quotient * n + remainder;\n}\n"
+               "function helper(a) {\n  var unused = a;\n  var a2 = a;\n  if (a > 0) {\n    var a2 = 1;\n    a2 = a2 + 1;\n  }\n  return a2;\n}\n")
+        main = ('pragma circom 2.0.0;\ninclude "poslib.circom";\ntemplate Low8() {\n  signal input v;\n  signal output y;\n  component d = DivRem(8);\n  d.x <== v;\n  y <== d.remainder + helper(2);\n}\ncomponent main = Low8();\n')
+        open(os.path.join(d, "poslib.circom"), "w").write(lib)
+        open(os.path.join(d, "posmain.circom"), "w").write(main)
+        for (pname, files) in (("named-main-only", ["posmain.circom"]), ("both-named", ["posmain.circom", "poslib.circom"])):
+            sar = os.path.join(d, "pos2.sarif")
+            if os.path.exists(sar):
+                os.unlink(sar)
+            rc, out, err = run_cli(exe, ["-l", "info", "--sarif-file", sar] + files, d)
+            evals += 1
+            bad = None
+            if rc is None or "panicked" in err or rc not in (0, 1):
+                bad = f"the tool aborted or hung (exit {rc})"
+            else:
+                try:
+                    results = json.load(open(sar))["runs"][0]["results"]
+                except Exception as e:
+                    results, bad = [], f"unreadable SARIF ({e})"
+                texts = {"posmain.circom": main.split("\n"), "poslib.circom": lib.split("\n")}
+                for r in results:
+                    for kind in ("locations", "relatedLocations"):
+                        for loc in r.get(kind, []):
+                            nontrivial += 1
+                            f = os.path.basename(loc["physicalLocation"]["artifactLocation"]["uri"])
+                            reg = loc["physicalLocation"]["region"]
+                            lines = texts.get(f)
+                            sl, el = reg.get("startLine"), reg.get("endLine", reg.get("startLine"))
+                            sc, ec = reg.get("startColumn", 1), reg.get("endColumn", 1)
+                            if lines is None:
+                                bad = f"{r.get('ruleId')}: a label names the file `{f}`, which is not part of the project"
+                            elif not (1 <= sl <= el <= len(lines)) or sc > len(lines[sl - 1]) + 1 or ec > len(lines[el - 1]) + 1 or (sl == el and sc > ec):
+                                bad = f"{r.get('ruleId')}: the {'primary' if kind == 'locations' else 'related'} label {sl}:{sc}-{el}:{ec} lies outside `{f}` ({len(lines)} lines)"
+                            elif str(r.get("ruleId", "")).startswith(("CS", "CA")) and (sl, sc) == (el, ec):
+                                bad = f"{r.get('ruleId')}: the {'primary' if kind == 'locations' else 'related'} label {sl}:{sc}-{el}:{ec} in `{f}` is empty: the label of an analysis finding covers the construct it is about (a range clamped to the end of the file looks like this)"
+            if bad and len(viol) < 20:
+                viol.append({"unit": "e2e", "fn": "report locations", "obligation": f"e2e|positions|all-labels:{pname}", "props": ["C04"],
+                             "input": {"case": pname, "files": files}, "what": f"all-labels/{pname}: {bad}", "replay": "python3 run/e2e.py positions quick 0"})
     finally:
         shutil.rmtree(d, ignore_errors=True)
     return {"unit": "e2e-positions", "evaluations": evals, "distinct_nontrivial": nontrivial, "exhaustive": False,
             "rule": "the real CLI on a template whose `out <-- in * in;` statement is preceded by text that shifts byte offsets (multi-byte characters in comments and strings, tabs, CRLF, long lines, a byte order mark): the label of the finding about that statement underlines exactly the statement, on its line, in the terminal output and in SARIF; a file the tool cannot tokenise must be rejected with a parse error rather than analysed with shifted positions; on a fixture with findings of 11 kinds (shadowing, unused parameter, dead assignment, unused variable, constant condition, both `<--` findings, divisor, intermediate signal, Num2Bits instantiation, unconstrained signal) the label of each finding underlines exactly the source text of the construct it is about",
-            "bound": "12 placements of one statement; one fixture with 16 findings of 11 kinds (three of them infix expressions that begin or end with a parenthesised operand) in 4 renderings (plain, multi-byte comment first, CRLF, tabs); 6 truncated files (end of file inside a template, unterminated comments): the error is on the last line / underlines the `/*`", "samples": samples, "violations": viol}
+            "bound": "12 placements of one statement; one fixture with 16 findings of 11 kinds (three of them infix expressions that begin or end with a parenthesised operand) in 4 renderings (plain, multi-byte comment first, CRLF, tabs); 6 truncated files (end of file inside a template, unterminated comments): the error is on the last line / underlines the `/*`; a two-file project (the named file instantiates a template and calls a function of a longer included file): every primary and related label of every SARIF result names a file of the project and lies inside it", "samples": samples, "violations": viol}
 
 
 def sigassign_program(rng, n_stmts):
@@ -1784,6 +1830,22 @@ DET_DEFS["Wide"] = """template Wide(p, q, r) {
   (w + 1) * in === 2;
   out <== in;
 }"""
+# a template that cannot be desugared (anonymous component inside log) and one that instantiates it anonymously: what is said
+# about the second must not depend on which of the two the desugarer meets first
+DET_DEFS["SqBad"] = """template SqBad() {
+  signal input in;
+  signal output out;
+  out <== in * in;
+  log(SqBad()(in));
+}"""
+DET_DEFS["Scaled"] = """template Scaled() {
+  signal input a;
+  signal input b;
+  signal output out;
+  signal sq;
+  sq <== SqBad()(a);
+  out <-- sq / b;
+}"""
 DET_EXTRA = {
     "Unrelated": """template Unrelated(p) {
   signal input u;
@@ -1860,7 +1922,7 @@ def suite_determinism(exe, tier, seed):
     def diff(a, b):
         return {"only_first": sorted(map(str, (a - b).elements()))[:4], "only_second": sorted(map(str, (b - a).elements()))[:4]}
     try:
-        base_a, base_b = ["fdead", "fhelper", "Num2Bits", "Leaf", "Fib", "Split", "Wide"], ["Mid", "Top"]
+        base_a, base_b = ["fdead", "fhelper", "Num2Bits", "Leaf", "Fib", "Split", "Wide", "SqBad", "Scaled"], ["Mid", "Top"]
         where = det_project(d, base_a, base_b)
         ref, e = det_findings(exe, d, ["a.circom", "b.circom"], where)
         evals += 1
@@ -2052,6 +2114,10 @@ def suite_failures(exe, tier, seed):
             expect_failure("syntax", f"stray-brace-before-token-{k}", [f], f"`}}` inserted before `{base[a:b]}`")
         f = write("syn.circom", base + "/* never closed")
         expect_failure("syntax", "unterminated-comment", [f], "a comment that is never closed")
+        # the file may end in any state of the comment scanner: right after the opener, after a `*`, after `**`, after a `/` inside the comment
+        for (k, tail) in enumerate(["/*", "/* end *", "/* end **", "/* end /", "/* end *\n", "/** doc **", "/* a */ /* b *", "// x\n/*"]):
+            f = write("syn.circom", base + tail)
+            expect_failure("syntax", f"unterminated-comment-ending-{k}", [f], f"the file ends inside a block comment: {tail!r}")
         # ---- E: malformed tuples and anonymous components (the definition cannot be desugared)
         for (case, body) in (("tuple-arity", "  signal x; signal y;\n  (x, y) <== (in, in, in);"), ("anonymous-arity", "  signal x;\n  x <== Sub()(in);"),
                              ("anonymous-unknown-template", "  signal x;\n  x <== Nope()(in, in);"), ("tuple-in-function", None)):
